@@ -33,6 +33,26 @@ CHECKS = {
             "Label programs r0 J1 r1 .. JK rK ret ret are built through the real public builder and assembled by the real assembler (symbolically executed); for every program of the family (all K=1, stride+seeded slice of K=2, sampled K=3/4; distances around 255/256 and 505..515) SMT decides assembled-list == label-level program for all 16 input words and all jump operands. Also the policy-level programs above 255 instructions.",
             "Trusted: abstract label machine vAbsRun (~40 lines), KMI, engine, solvers. Distances are the listed run lengths, not symbolic (the symbolic-distance deepening of DESIGN.md was not built).",
             "SMT-based bounded translation validation of the real assembler (go/ssa symbolic execution, z3 + cvc5)"),
+    "C07": (MC, "4 (C07)",
+            "Symbolic execution of the real compiler on every valid base shape of weight <=5/6 with one defect injected at each position in turn; the defect payload is symbolic (any non-kernel action word; any string that is not a key of the table; any index > 5; any string that is none of the eight operations), so one SMT verdict per instance covers all payload values: every path returns err != nil and no program and no panic path is feasible. Valid shapes up to weight 6/8 and the large shapes are accepted on every path.",
+            "Trusted: engine, equality-atom string encoding, solvers; models replayed natively. Two defects at once and the GOARCH-default path to an architecture without tables (C19) are outside.",
+            "SMT-based bounded symbolic execution of the real validator/compiler with symbolic defect payloads (z3 + cvc5)"),
+    "C08": (TV, "4 (C08)",
+            "The real LoadFilter is executed symbolically with syscall.Syscall redirected to a kernel-contract stub. At the seccomp call the harness dereferences the pointer argument exactly as the kernel would and SMT decides: length and every element equal the raw encoding of the compiled program, and the memory at the pointer, evaluated by the kernel model, decides like the policy for all events. What the running kernel then does with those bytes (EPERM/SIGSYS delivery to probe syscalls) is represented by the KMI model, not decided on the host kernel.",
+            "Trusted: kernel contract stub, KMI, refDecide, engine (unsafe.Pointer/uintptr provenance model), solvers. Native replay runs seccomp_linux.go with its syscall selectors mechanically rewritten to the stub.",
+            "SMT-based translation validation at the syscall boundary (go/ssa symbolic execution with a kernel-contract stub, z3 + cvc5)"),
+    "C09": (MC, "4 (C09)",
+            "Every (r1, errno) the kernel may return from prctl and seccomp is a symbolic variable; on every path of the real LoadFilter SMT decides result == nil <=> attached, failure before the kernel => empty call trace, prctl failure => no seccomp call; Supported() issues exactly one seccomp(SET_MODE_STRICT, flags != 0, NULL) and returns true iff EINVAL. Histories of loads on other threads are represented by the kernel answer they provoke (positive r1), not replayed as histories.",
+            "Trusted: the seccomp(2)/prctl(2) contract as encoded in the stub (~100 lines); whether the kernel honours it is outside.",
+            "SMT-based symbolic execution of the loader over all kernel answers (z3 + cvc5)"),
+    "C10": (MC, "4 (C10)",
+            "What the library contributes to thread-sync is decided: for all 2^32 Flag values the seccomp call's flags argument equals the zero-extended flag word, no other state-changing call is made, and nil is returned only if the kernel reported complete synchronisation (r1 == 0). The quantifier over interleavings with N other threads is NOT explored: TSYNC atomicity is kernel code and is assumed from seccomp(2).",
+            "Assumes the kernel applies a TSYNC filter atomically to all threads when it returns 0. Trusted: kernel contract stub, engine, solvers.",
+            "SMT-based symbolic execution of the loader with a symbolic flag word (z3 + cvc5); schedules discharged by assumption on the kernel"),
+    "C11": (MC, "4 (C11)",
+            "Scheduling model: the OS thread of each syscall is an arbitrary symbolic value unless the goroutine has been locked to its thread since the previous syscall. On the call trace of the real LoadFilter SMT decides: NoNewPrivs => exactly one prctl(38,1,0,0,0), strictly before seccomp, on the same thread for every thread assignment; not requested => no prctl; unprivileged caller without the bit => error.",
+            "The Go scheduler is represented by its only observable effect here (which thread runs each syscall); runtime.LockOSThread is modelled as pinning. Trusted: stub incl. per-thread no_new_privs ghost bit, engine, solvers.",
+            "SMT-based symbolic execution of the loader over a symbolic thread-assignment model (z3 + cvc5)"),
 }
 
 NOT_BUILT = "check not built yet (work in progress)"
